@@ -300,7 +300,7 @@ const (
 	SpellCounters             // [123:456] behind chain policies, comment header
 )
 
-var kernelOrder = map[string]int{"-s": 1, "-d": 2, "-i": 3, "-o": 4, "-p": 5, "-m": 6}
+var kernelOrder = map[string]int{"-s": 1, "-d": 2, "-i": 3, "-o": 4, "-p": 5}
 
 // Save prints the ruleset the way iptables-save does.
 func (rs *Ruleset) Save(spell int) string {
@@ -335,33 +335,27 @@ func (r Rule) kernel(spell int) string {
 	if p, ok := r.get("-p"); ok {
 		proto = strings.ToLower(p.Val)
 	}
-	type ko struct {
-		o    Opt
-		rank int
-	}
-	var l []ko
 	hasM := map[string]bool{}
 	for _, o := range r.Opts {
 		if o.Key == "-m" {
 			hasM[o.Val] = true
 		}
 	}
-	needM := ""
-	for i, o := range r.Opts {
-		rank := 50 + i
-		if k, ok := kernelOrder[o.Key]; ok {
-			rank = k
+	render := func(o Opt) string {
+		s := o.Key
+		if o.Neg {
+			s = "! " + s // the kernel prints the negation in front of the option
 		}
-		if o.Key == "-j" || o.Key == "-g" {
-			rank = 900
+		if o.Val != "" {
+			s += " " + o.Val
 		}
-		// options of the target come behind it
-		switch o.Key {
-		case "--log-level", "--log-prefix", "--set-mark", "--set-xmark", "--to-source", "--to-destination", "--reject-with", "--to-ports":
-			rank = 910 + i
-		}
-		v := o.Val
-		key := o.Key
+		return s
+	}
+	var head, mid, tgt []string
+	addedM := map[string]bool{}
+	for _, o := range r.Opts {
+		v, key := o.Val, o.Key
+		needM := ""
 		switch o.Key {
 		case "-s", "-d":
 			if spell&SpellHost32 != 0 && !strings.Contains(v, "/") {
@@ -385,7 +379,9 @@ func (r Rule) kernel(spell int) string {
 				needM = proto
 			}
 		case "--syn":
-			if spell&SpellSynFlags != 0 {
+			// Only the negated form is spelled out: that is the variant the
+			// suite documents ("! --tcp-flags FIN,SYN,RST,ACK SYN").
+			if spell&SpellSynFlags != 0 && o.Neg {
 				key, v = "--tcp-flags", "FIN,SYN,RST,ACK SYN"
 			}
 			needM = "tcp"
@@ -410,24 +406,32 @@ func (r Rule) kernel(spell int) string {
 				v = "7"
 			}
 		}
-		l = append(l, ko{Opt{Key: key, Neg: o.Neg, Val: v}, rank})
-	}
-	if spell&SpellMatch != 0 && needM != "" && !hasM[needM] {
-		l = append(l, ko{Opt{Key: "-m", Val: needM}, kernelOrder["-m"]})
-	}
-	sort.SliceStable(l, func(i, j int) bool { return l[i].rank < l[j].rank })
-	var parts []string
-	for _, x := range l {
-		s := x.o.Key
-		if x.o.Neg {
-			s = "! " + s // the kernel prints the negation in front of the option
+		out := render(Opt{Key: key, Neg: o.Neg, Val: v})
+		switch o.Key {
+		case "-s", "-d", "-i", "-o", "-p":
+			head = append(head, fmt.Sprintf("%d%s", kernelOrder[o.Key], out))
+		case "-j", "-g", "--log-level", "--log-prefix", "--set-mark", "--set-xmark", "--to-source",
+			"--to-destination", "--reject-with", "--to-ports":
+			// the target and its options come last, target first
+			if o.Key == "-j" || o.Key == "-g" {
+				tgt = append([]string{out}, tgt...)
+			} else {
+				tgt = append(tgt, out)
+			}
+		default:
+			// A match module is printed in front of its first option.
+			if spell&SpellMatch != 0 && needM != "" && !hasM[needM] && !addedM[needM] {
+				addedM[needM] = true
+				mid = append(mid, "-m "+needM)
+			}
+			mid = append(mid, out)
 		}
-		if x.o.Val != "" {
-			s += " " + x.o.Val
-		}
-		parts = append(parts, s)
 	}
-	return strings.Join(parts, " ")
+	sort.Strings(head)
+	for i := range head {
+		head[i] = head[i][1:]
+	}
+	return strings.Join(append(append(head, mid...), tgt...), " ")
 }
 
 // RenderNetspoc prints the ruleset in the spelling of Netspoc's code file.
@@ -742,7 +746,9 @@ func (d *Device) stall() {
 		if !ok {
 			return
 		}
-		_, _, cl := d.Host.Clone().Run(l)
+		probe := d.Host.Clone()
+		probe.ScpDir = ""
+		_, _, cl := probe.Run(l)
 		d.rec(cl, l)
 	}
 }
@@ -833,7 +839,10 @@ func (d *Device) Serve() {
 			out, class = fmt.Sprintf("%d\n", d.last), "read"
 		} else {
 			// Classify first without executing.
-			_, _, class = d.Host.Clone().Run(l)
+			d.Host.Run("")
+			probe := d.Host.Clone()
+			probe.ScpDir = ""
+			_, _, class = probe.Run(l)
 		}
 		r := d.rec(class, l)
 		f := d.fault(d.k)
